@@ -136,3 +136,12 @@ MUTANTS += [
     ("c14-wrap-test-gt-async", "C14", [(A, "            if self._local_id == 2**32:\n                self._local_id = 1", "            if self._local_id > 2**32:\n                self._local_id = 1")]),
     ("c14-adb-info-outside-lock", "C14", [(D, "                self._local_id = 1\n\n            adb_info = _AdbTransactionInfo(self._local_id,", "                self._local_id = 1\n\n        if True:\n            adb_info = _AdbTransactionInfo(self._local_id,")]),
 ]
+T = "adb_shell/transport/tcp_transport.py"
+TA = "adb_shell/transport/tcp_transport_async.py"
+MUTANTS += [
+    ("c18-recv-one-more", "C18", [(T, "            return self._connection.recv(numbytes)", "            return self._connection.recv(numbytes + 1)")]),
+    ("c18-timeout-not-passed-to-select", "C18", [(T, "        readable, _, _ = select.select([self._connection], [], [], transport_timeout_s)", "        readable, _, _ = select.select([self._connection], [], [], 0)")]),
+    ("c18-async-read-exactly", "C18", [(TA, "                return await self._reader.read(numbytes)", "                return await self._reader.readexactly(numbytes)")]),
+    ("c18-async-timeout-swallowed", "C18", [(TA, "            msg = 'Reading from {}:{} timed out ({} seconds)'.format(self._host, self._port, transport_timeout_s)\n            raise TcpTimeoutException(msg) from exc", "            return b''")]),
+    ("c16-tcp-sync-drops-first-byte", "C16", [(T, "            return self._connection.recv(numbytes)", "            d = self._connection.recv(numbytes)\n            return d[1:] if len(d) == 5 else d")]),
+]
